@@ -17,6 +17,7 @@ Plan gen_c18(uint64_t seed, int tier)
   p.cfg["fo"] = fo;
   gen_sched(p, r);
   gen_backend(p, r);
+  gen_backend_mode(p, r);
   // one writer thread per backtrace logger (exact model): thread t uses logger t
   int nthreads = static_cast<int>(r.range(1, 3));
   p.cfg["nloggers"] = nthreads;
